@@ -23,7 +23,7 @@ InOf(r, clamp) ==
 Verdicts(r, in, o) ==
   [line |-> l, kind |-> o.kind,
    \* the real call made exactly the invocations the specification computes
-   conforms |-> /\ r.trunc = 0
+   conforms |-> /\ r.trunc = 0 /\ r.nb = Len(r.b)
                 /\ (r.b = o.bodies \/ SeqToBag(r.b) = SeqToBag(o.bodies)),
    \* C12 on what was observed: the invocations partition [start, end) ...
    c12 |-> r.trunc = 0 /\ IsPartition(r.b, in.start, Max(in.start, in.end)),
